@@ -47,7 +47,7 @@ pub const EXCLUDED: &[(&str, &str)] = &[
     ("bare try/catch and `?` whose outputs flow on (always emitted as `[try … catch …] | .[]`, `[…?] | .[]`)", "jq 1.6's try/`?` also catches errors and `break`s raised downstream of its outputs (fixed in 1.7); measured: first(… try …), `|=` with try on the right, {a: f?, b: error}"),
     ("string * n with n <= 0 or fractional n", "1.6: null / the string itself; jq >= 1.7 differs (jqlang/jq#1593), the recordings do not cover it"),
     ("literal / 0 and other constant-foldable operands of a zero divisor", "jq folds constants at compile time (`1 / 0` is a compile error, `(0 | .) / 0` is NaN in 1.6)"),
-    ("open findings, excluded by construction while open (each has a committed replay)", "sqrt; bare flatten; last(f) of an empty stream; split/`/` on the empty string; index/rindex/indices(string) on an object input"),
+    ("open findings, excluded by construction while open (each has a committed replay)", "bare flatten; last(f) of an empty stream; index/rindex/indices(string) on an object input (sqrt and split of the empty string were repaired and are generated again)"),
     ("walk, combinations, transpose, map_values, min_by/max_by, nth, splits, env", "not in the recorded vocabulary (golden filters + error probes)"),
 ];
 
@@ -648,8 +648,8 @@ impl<'a, 'b> Gen<'a, 'b> {
         Some(match inp {
             Shape::Num => match self.u.below(12) {
                 0 => {
-                    // sqrt excluded while the finding sqrt-not-correctly-rounded is open
-                    let b = *self.u.pick(&["floor", "ceil", "round", "trunc", "fabs"]);
+                    // sqrt is back in the profile: sqrt-not-correctly-rounded was repaired (50092a0)
+                    let b = *self.u.pick(&["floor", "ceil", "round", "trunc", "fabs", "(fabs | sqrt)"]);
                     self.op(b);
                     e1(b, Shape::Num)
                 }
@@ -734,7 +734,7 @@ impl<'a, 'b> Gen<'a, 'b> {
                 5 => {
                     self.op("split");
                     let sep = *self.u.pick(&[",", " ", "a", "b", "/", "ab"]);
-                    e1(format!("(if . == \"\" then \"a\" else . end | split({}))", jq_str(sep)), Shape::ArrOf(Box::new(Shape::Str))) // "" excluded: open finding split-of-empty-string
+                    e1(format!("split({})", jq_str(sep)), Shape::ArrOf(Box::new(Shape::Str))) // "" is back in the domain: split-of-empty-string was repaired (55e0ae2)
                 }
                 6 => {
                     // ASCII-only subject and needle: offsets are bytes in 1.6, code points in 1.7
